@@ -14,6 +14,16 @@ WORK = os.path.join(VERIF, "work")
 REPLAYS = os.path.join(VERIF, "replays")
 EVIDENCE = os.path.join(VERIF, "evidence")
 TLA_CP = "/opt/veriftools/tla/tla2tools.jar:/opt/veriftools/tla/CommunityModules-deps.jar"
+# the repository under verification: /repo, unless a development run points a scratch copy of /verif at a scratch copy
+REPO = os.environ.get("VERIF_REPO", "/repo")
+_link = os.path.join(VERIF, "repo-link")
+if os.path.realpath(_link) != os.path.realpath(REPO) or not os.path.islink(_link):
+    try:
+        if os.path.islink(_link) or os.path.exists(_link):
+            os.remove(_link)
+        os.symlink(REPO, _link)
+    except OSError:
+        pass
 
 
 class ToolError(Exception):
@@ -38,7 +48,7 @@ def build_harness():
     """(Re)build the harness against /repo's current working tree, hooks enabled."""
     lock = os.path.join(HARNESS, "Cargo.lock")
     if not os.path.exists(lock):
-        shutil.copy("/repo/Cargo.lock", lock)
+        shutil.copy(os.path.join(REPO, "Cargo.lock"), lock)
     rc, out = sh(["cargo", "build", "--offline", "--quiet"], cwd=HARNESS, env={"CARGO_NET_OFFLINE": "true"}, timeout=1500)
     if rc != 0:
         raise ToolError("harness build failed:\n" + out[-4000:])
@@ -240,6 +250,37 @@ def run_mc(cfg_text, workdir, tag, workers=8, timeout=3000, module="MC.tla"):
         m2 = re.search(r"(Error: .*?)(?:Error: The behavior|The coverage statistics|$)", out, re.S)
         raise ToolError("TLC model checking failed:\n" + (m2.group(1)[:2000] if m2 else out[-2000:]))
     return res
+
+
+def gen_behaviours(cfg_text, workdir, tag, workers=6, timeout=1800, limit=None, seed=0):
+    """Direction A: TLC enumerates every run-to-block behaviour of a small configuration (spec/Gen.tla) and prints
+    {programs, decisions}; returns them as harness scenarios (plus TLC's state counts)."""
+    stage_spec(workdir)
+    cfgp = os.path.join(workdir, f"{tag}.cfg")
+    with open(cfgp, "w") as f:
+        f.write(cfg_text)
+    md = os.path.join(workdir, f"md_{tag}")
+    rc, out = sh(tlc_cmd(os.path.basename(cfgp), "Gen.tla", md, workers, ("-Xmx8g",)), cwd=workdir, timeout=timeout)
+    shutil.rmtree(md, ignore_errors=True)
+    v = re.search(r"Invariant (\w+) is violated", out)
+    if v:
+        return None, {"violated": v.group(1), "out_tail": out[-1500:]}
+    if "No error has been found" not in out:
+        m2 = re.search(r"(Error: .*?)(?:Error: The behavior|$)", out, re.S)
+        raise ToolError("TLC behaviour generation failed:\n" + (m2.group(1)[:2000] if m2 else out[-2000:]))
+    m = re.search(r"(\d+) states generated, (\d+) distinct states found", out)
+    beh = []
+    for i, mm in enumerate(re.finditer(r'<<"BEHAVIOUR", "(.*)">>', out)):
+        b = json.loads(json.loads('"' + mm.group(1) + '"'))
+        beh.append(b)
+    total = len(beh)
+    if limit and total > limit:
+        rng = random.Random(f"gen-{tag}-{seed}")
+        beh = rng.sample(beh, limit)
+    scs = []
+    for i, b in enumerate(beh):
+        scs.append({"id": f"gen-{tag}-{i}", "seed": 0, "horizon": 1000, "clients": b["prog"], "decisions": b["dec"]})
+    return scs, {"states": int(m.group(2)) if m else 0, "transitions": int(m.group(1)) if m else 0, "behaviours": total, "replayed": len(scs)}
 
 
 # ------------------------------------------------------------------------------------------------
